@@ -125,6 +125,7 @@ class SimSlurmHost(Connector):
             if j is None:
                 return ("", 1)
             st = self._state(jid, now)
+            self.log.append(("fetch", now, jid, sim.loop.steps))
             rc = self.table[j["k"]]["rc"] if st == "COMPLETED" else 0
             line = f"JobId={jid} JobName=sf JobState={st} ExitCode={rc}:0 StdOut=/cluster/out/slurm-{jid}.out WorkDir=/x"
             if "StdOut" in cmd:
